@@ -1483,6 +1483,211 @@ theorem single_mapping (atoms : List Atom) (sd : SplitDef) (mapping : List (Nat 
     unfold askedName
     by_cases hr' : a.resname = sd.resname <;> simp [hr', lookup]
 
+/-! ### C. `-start` -/
+
+/-- the loop of `find_starting_node_from_spec` over the molecules carrying the name -/
+def startStep (name : String) (sp : Spec) (st : List (Option Nat)) (mi : Mol × Nat) : Except String (List (Option Nat)) :=
+  if mi.1.name = name then
+    match findNodes mi.1 sp with
+    | [] => Except.error "IndexError: no node"
+    | k :: _ => Except.ok (st.set mi.2 (some k))
+  else Except.ok st
+
+theorem startStep_fold (name : String) (sp : Spec) (l : List Mol) : ∀ (k : Nat) (st st' : List (Option Nat)),
+    (l.zipIdx k).foldlM (startStep name sp) st = .ok st' →
+    st'.length = st.length ∧ ∀ j, st'[j]? =
+      match l[j - k]? with
+      | some m => if k ≤ j ∧ m.name = name ∧ j < st.length then some ((findNodes m sp).head?) else st[j]?
+      | none => st[j]? := by
+  induction l with
+  | nil =>
+    intro k st st' h
+    simp only [List.zipIdx_nil, List.foldlM_nil, pure, Except.pure, Except.ok.injEq] at h
+    subst h
+    exact ⟨rfl, fun j => by simp⟩
+  | cons m rest ih =>
+    intro k st st' h
+    rw [List.zipIdx_cons, List.foldlM_cons] at h
+    obtain ⟨st1, h1, h2⟩ := bind_ok _ _ _ h
+    obtain ⟨hl, hj⟩ := ih (k + 1) st1 st' h2
+    unfold startStep at h1
+    by_cases hn : m.name = name
+    · simp only [hn, if_true] at h1
+      cases hf : findNodes m sp with
+      | nil => simp [hf] at h1
+      | cons k0 ks =>
+        simp only [hf, Except.ok.injEq] at h1
+        subst h1
+        refine ⟨by rw [hl, List.length_set], ?_⟩
+        intro j
+        rw [hj j]
+        by_cases hjk : j = k
+        · subst hjk
+          have : j - (j + 1) = 0 := by omega
+          simp only [this, Nat.sub_self, List.getElem?_cons_zero, List.length_set]
+          cases hr : rest[0]? with
+          | none => simp [List.getElem?_set, hn, hf]; intro h; rw [List.getElem?_eq_none (by omega)]
+          | some m2 =>
+            have : ¬ (j + 1 ≤ j) := by omega
+            simp [this, List.getElem?_set, hn, hf]
+            intro h; rw [List.getElem?_eq_none (by omega)]
+        · by_cases hlt : j < k
+          · have e1 : j - (k + 1) = 0 := by omega
+            have e2 : j - k = 0 := by omega
+            have n1 : ¬ (k + 1 ≤ j) := by omega
+            have n2 : ¬ (k ≤ j) := by omega
+            have hne : ¬ k = j := fun e => hjk e.symm
+            simp only [e1, e2, List.getElem?_cons_zero]
+            cases rest[0]? <;> simp [n1, n2, List.getElem?_set, hne]
+          · have e : j - k = (j - (k + 1)) + 1 := by omega
+            have hne : ¬ k = j := fun e => hjk e.symm
+            rw [e, List.getElem?_cons_succ]
+            cases hr : rest[j - (k + 1)]? with
+            | none => simp [List.getElem?_set, hne]
+            | some m2 =>
+              have c1 : k + 1 ≤ j := by omega
+              have c2 : k ≤ j := by omega
+              simp [c1, c2, List.length_set, List.getElem?_set, hne]
+    · simp only [hn, if_false, Except.ok.injEq] at h1
+      subst h1
+      refine ⟨hl, ?_⟩
+      intro j
+      rw [hj j]
+      by_cases hjk : j = k
+      · subst hjk
+        have : j - (j + 1) = 0 := by omega
+        simp only [this, Nat.sub_self, List.getElem?_cons_zero]
+        have n1 : ¬ (j + 1 ≤ j) := by omega
+        cases rest[0]? <;> simp [n1, hn]
+      · by_cases hlt : j < k
+        · have e1 : j - (k + 1) = 0 := by omega
+          have e2 : j - k = 0 := by omega
+          have n1 : ¬ (k + 1 ≤ j) := by omega
+          have n2 : ¬ (k ≤ j) := by omega
+          simp only [e1, e2, List.getElem?_cons_zero]
+          cases rest[0]? <;> simp [n1, n2]
+        · have e : j - k = (j - (k + 1)) + 1 := by omega
+          rw [e, List.getElem?_cons_succ]
+          cases hr : rest[j - (k + 1)]? with
+          | none => rfl
+          | some m2 =>
+            have c1 : k + 1 ≤ j := by omega
+            have c2 : k ≤ j := by omega
+            simp [c1, c2]
+
+/-- a specification naming both an index and a name is consistent when that molecule carries the name -/
+def consistentSpec (mols : List Mol) (sp : Spec) : Prop :=
+  ∀ i n, sp.molIdx = some i → sp.molname = some n → (mols[i]?.map (·.name)) = some n
+
+theorem startOne_spec (mols : List Mol) (sp : Spec) (st st' : List (Option Nat)) (hlen : st.length = mols.length)
+    (hcons : consistentSpec mols sp) (h : startOne mols st sp = .ok st') :
+    st'.length = mols.length ∧ ∀ i m, mols[i]? = some m →
+      st'[i]? = if specAddresses mols sp i = true then some ((findNodes m sp).head?) else st[i]? := by
+  unfold startOne at h
+  cases hidx : sp.molIdx with
+  | some i0 =>
+    simp only [hidx] at h
+    cases hm0 : mols[i0]? with
+    | none => simp [hm0] at h
+    | some m0 =>
+      simp only [hm0] at h
+      cases hf : findNodes m0 sp with
+      | nil => simp [hf] at h
+      | cons k0 ks =>
+        simp only [hf, Except.ok.injEq] at h
+        subst h
+        refine ⟨by rw [List.length_set]; exact hlen, ?_⟩
+        intro i m hm
+        have hi0 : i0 < st.length := by rw [hlen]; exact (List.getElem?_eq_some_iff.mp hm0).1
+        by_cases hi : i0 = i
+        · subst hi
+          rw [hm0] at hm; cases hm
+          have haddr : specAddresses mols sp i0 = true := by
+            unfold specAddresses
+            cases hnm : sp.molname with
+            | none => simp [hidx]
+            | some n =>
+              have := hcons i0 n hidx hnm
+              simp [hidx, this]
+          simp [haddr, List.getElem?_set, hi0, hf]
+        · have haddr : specAddresses mols sp i = false := by
+            unfold specAddresses
+            simp [hidx, hi]
+          simp [haddr, List.getElem?_set, hi]
+  | none =>
+    simp only [hidx] at h
+    cases hnm : sp.molname with
+    | none => simp [hnm] at h
+    | some name =>
+      simp only [hnm] at h
+      have hfold : (mols.zipIdx 0).foldlM (startStep name sp) st = .ok st' := h
+      obtain ⟨hl, hj⟩ := startStep_fold name sp mols 0 st st' hfold
+      refine ⟨by rw [hl, hlen], ?_⟩
+      intro i m hm
+      rw [hj i]
+      simp only [Nat.sub_zero, hm, Nat.zero_le, true_and]
+      have hi : i < st.length := by rw [hlen]; exact (List.getElem?_eq_some_iff.mp hm).1
+      unfold specAddresses
+      by_cases hn : m.name = name <;> simp [hidx, hnm, hm, hn, hi]
+
+theorem start_fold (mols : List Mol) (specs : List Spec) : ∀ (init st : List (Option Nat)),
+    init.length = mols.length → (∀ sp ∈ specs, consistentSpec mols sp) →
+    specs.foldlM (startOne mols) init = .ok st →
+    st.length = mols.length ∧ ∀ i m, mols[i]? = some m →
+      st[i]? = match (specs.filter (specAddresses mols · i)).getLast? with
+        | some sp => some ((findNodes m sp).head?)
+        | none => init[i]? := by
+  induction specs with
+  | nil =>
+    intro init st hlen _ h
+    simp only [List.foldlM_nil, pure, Except.pure, Except.ok.injEq] at h
+    subst h
+    exact ⟨hlen, fun i m _ => by simp⟩
+  | cons sp rest ih =>
+    intro init st hlen hcons h
+    rw [List.foldlM_cons] at h
+    obtain ⟨st1, h1, h2⟩ := bind_ok _ _ _ h
+    obtain ⟨l1, s1⟩ := startOne_spec mols sp init st1 hlen (hcons sp List.mem_cons_self) h1
+    obtain ⟨l2, s2⟩ := ih st1 st l1 (fun x hx => hcons x (List.mem_cons_of_mem _ hx)) h2
+    refine ⟨l2, ?_⟩
+    intro i m hm
+    rw [s2 i m hm, s1 i m hm]
+    by_cases ha : specAddresses mols sp i = true
+    · simp only [List.filter_cons, ha, if_true]
+      cases hr : (rest.filter (specAddresses mols · i)).getLast? with
+      | none =>
+        have : rest.filter (specAddresses mols · i) = [] := by simpa [List.getLast?_eq_none_iff] using hr
+        simp [this]
+      | some sp' => rw [List.getLast?_cons]; simp [hr]
+    · simp only [List.filter_cons, ha]
+      cases hr : (rest.filter (specAddresses mols · i)).getLast? <;> simp
+
+/-- `-start`: with consistent specifications the start dictionary is what the specifications select -/
+theorem start_exact (mols : List Mol) (specs : List Spec) (st : List (Option Nat))
+    (hcons : ∀ sp ∈ specs, consistentSpec mols sp) (h : findStart mols specs = .ok st) :
+    st = specStart mols specs := by
+  unfold findStart at h
+  obtain ⟨hl, hs⟩ := start_fold mols specs (mols.map fun _ => none) st (by simp) hcons h
+  apply List.ext_getElem?
+  intro i
+  unfold specStart
+  rw [List.getElem?_map]
+  cases hm : mols[i]? with
+  | none =>
+    have : i ≥ mols.length := by rw [List.getElem?_eq_none_iff] at hm; exact hm
+    have hz : (mols.zipIdx)[i]? = none := by rw [List.getElem?_eq_none_iff]; simp; omega
+    rw [hz, List.getElem?_eq_none (by omega)]
+    rfl
+  | some m =>
+    have hlt : i < mols.length := (List.getElem?_eq_some_iff.mp hm).1
+    have hz : (mols.zipIdx)[i]? = some (m, i) := by
+      rw [List.getElem?_zipIdx]; simp [hm]
+    rw [hz, hs i m hm]
+    simp only [Option.map_some]
+    cases (specs.filter (specAddresses mols · i)).getLast? with
+    | none => simp [hlt]
+    | some sp => rfl
+
 /-! ### fixtures of the non-vacuity examples -/
 
 def exampleMols : List Mol :=
